@@ -153,7 +153,7 @@ def run(tier, work, replay=None):
         if "Deterministic" not in r2.invariant_violated:
             raise Machinery(f"anti-vacuity: {pts} does not violate Deterministic")
     s0 = seed()
-    seeds = [0, 1, 2 + s0] if q else [0, 1, 2, 3, 5, 8, 13, 21, 34, 55, 89, 144, 233, 377, 1000 + s0, 2000 + s0]
+    seeds = [0, 1, 2 + s0] if q else [0, 1, 2, 3, 5, 8, 13, 21, 34, 55, 89, 144, 233, 377] + [1000 * k + s0 for k in range(1, 35)]
     envs = [(sd, 0, "fresh") for sd in seeds] + [(seeds[0], 1, "fresh"), (seeds[1], 2, "fresh"), (seeds[-1], 0, "existing"), (seeds[0], 3, "existing")]
     ins = inputs()
 
@@ -179,7 +179,46 @@ def run(tier, work, replay=None):
             shutil.rmtree(work.dir / f"det_{name}_{k}", ignore_errors=True)
         return name, strategy, runs
 
-    outs = pmap(one, list(enumerate(ins)))
+    # ---- the repository's own example projects as additional inputs (all of them in the thorough tier, a seeded third in quick)
+    from .. import corpus
+
+    def digest_target(target):
+        h = {}
+        if target.is_dir():
+            for dp, dn, fn in os.walk(target):
+                if "__pycache__" in dp:
+                    continue
+                for f in fn:
+                    pth = os.path.join(dp, f)
+                    h[os.path.relpath(pth, target)] = hashlib.sha256(open(pth, "rb").read()).hexdigest()
+        else:
+            h[target.name] = hashlib.sha256(target.read_bytes()).hexdigest() if target.exists() else "missing"
+        return h
+
+    def one_corpus(t):
+        ii, proj = t
+        runs = []
+        cenvs = envs if not q else [envs[0], envs[1], envs[len(seeds)], envs[-2]]
+        prev = None
+        for k, (sd, order, target) in enumerate(cenvs):
+            job = work.dir / f"corp_{ii}_{k}"
+            if target == "existing" and prev is not None:
+                shutil.copytree(prev, job)
+            cfgname, tgt = corpus.stage(job, proj)
+            r = generate(job, proj["strategy"], hashseed=sd, env={"VERIF_LISTING": LISTING[order]}, config=cfgname)
+            d = digest_target(tgt) if r["exc_class"] is None else {"@error": r["exc_class"] + ": " + (r["exc_msg"] or "")[:200]}
+            runs.append({"seed": sd, "order": order, "target": target, "files": d,
+                         "digest": hashlib.sha256(json.dumps(d, sort_keys=True).encode()).hexdigest()})
+            if prev is None:
+                prev = job
+        for k in range(len(cenvs)):
+            shutil.rmtree(work.dir / f"corp_{ii}_{k}", ignore_errors=True)
+        return "corpus:" + proj["name"], proj["strategy"], runs
+    projs = corpus.projects()
+    if q:
+        projs = [pj for k, pj in enumerate(projs) if (k + s0) % 3 == 0]
+    outs = pmap(one, list(enumerate(ins))) + pmap(one_corpus, list(enumerate(projs)))
+    v.cov["corpus_projects"] = [pj["name"] for pj in projs]
     traces = []
     n = 0
     for name, strategy, runs in outs:
